@@ -109,7 +109,7 @@ fn profile() -> Profile {
         p_retry_closure: 40,
         p_retry_tags_mode: 0,
         p_delay: 0,
-        p_fail_fast: 0,
+        p_fail_fast: 15,
         p_lazy_parser: 20,
         p_parser_error: 0,
         p_fail_step: 15,
@@ -301,11 +301,19 @@ fn run_one(input: &Input, want_sample: bool) -> Value {
     if completed {
         // ... and the per-attempt reference automaton of C02 (Log events are transparent to it)
         viol.extend(m.violations.iter().cloned());
+        viol.extend(lab::oracles::check_c08(&case, &log, &m));
         viol.extend(lab::oracles::check_c03(&case, &log));
         viol.extend(lab::oracles::check_c07(&case, &log, &m));
     }
     let spare_alive = spare.is_some();
     drop(spare);
+    if let RunEnd::Stalled(why) | RunEnd::NoProgress(why) = &log.end {
+        // a fail-fast run that never ends breaks C08's closing clauses as well
+        let failed_final = m.attempts.iter().any(|a| a.finished.is_some() && a.failed && a.retries.is_none_or(|r| r.1 == 0));
+        if case.fail_fast() && failed_final {
+            viol.push(Violation::new("C08/not-closed-cleanly/stalled".to_string(), format!("fail-fast run with a final failure never reached run-Finished: {why}")));
+        }
+    }
     let n_logs = log.events.iter().filter(|e| matches!(&e.k, EvKind::Sc { ev: ScEv::Log(_), .. })).count();
     let mut labels: Vec<&str> = vec![];
     if concurrent_logging {
@@ -464,6 +472,7 @@ impl Property for LabT {
     fn saved_id(&self) -> &'static str {
         match self.0 {
             "C02" => "C02-tracing",
+            "C08" => "C08-tracing",
             "C03" => "C03-tracing",
             _ => "C07-tracing",
         }
@@ -501,6 +510,7 @@ fn main() {
     let prop: &dyn Property = match args.get(2).map(String::as_str) {
         Some("C04") => &C04T,
         Some("C02") => &LabT("C02"),
+        Some("C08") => &LabT("C08"),
         Some("C03") => &LabT("C03"),
         Some("C07") => &LabT("C07"),
         _ => &C20,
